@@ -69,6 +69,15 @@ class Model:
             f.add_ge(u, Lin.c(0))
             f.add_le(u, Lin.c(1))
             return u
+        if name == "uniform" and len(args) == 2 and isinstance(c.func, ast.Attribute):
+            # random.Random.uniform(a, b) = a + (b - a) * random(): a value between its arguments (either end may be attained)
+            a, b = evaluate(env, args[0]), evaluate(env, args[1])
+            x = f.fresh("udraw", exact=True, integer=False)
+            if isinstance(a, Lin) and isinstance(b, Lin) and prove_cmp(f, a, ast.LtE(), b).status == HOLDS:
+                f.add_ge(x, a)
+                f.add_le(x, b)
+                return x
+            return f.fresh("udraw", exact=False, integer=False)
         if name == "random_float" and len(args) >= 2:
             a, b = evaluate(env, args[0]), evaluate(env, args[1])
             x = f.fresh("fdraw", exact=True, integer=False)
@@ -155,7 +164,7 @@ def verdict_ob(ctx: Ctx, rule: str, fn: FunctionInfo, node: ast.AST, construct: 
             ctx.ob(rule, fn, node, construct, None, v.detail or v.status)
 
 
-DRAW_NAMES = ("randint", "random_float", "random", "read", "get", "choice", "random_bool")
+DRAW_NAMES = ("randint", "random_float", "random", "uniform", "read", "get", "choice", "random_bool")
 
 
 def _point_witness(ctx: Ctx, fn: FunctionInfo, integer: bool):
